@@ -515,6 +515,51 @@ class Stmt:
         items.append(cur)
         return [' '.join(x) for x in items]
 
+    def inner_on_predicates(self, scope=0):
+        """top-level AND-separated predicates of the ON clauses of plain / INNER joins of a scope (for an inner join a condition in
+        ON and the same condition in WHERE select the same rows); LEFT / OUTER / CROSS joins are left out."""
+        lo, hi = self.group_range(scope)
+        if lo >= len(self.toks):
+            return []
+        base = self.depth[lo]
+        preds, cur, collecting = [], [], False
+        outer = False
+        for k in range(lo, hi):
+            if self.depth[k] != base:
+                if collecting:
+                    cur.append(self.toks[k])
+                continue
+            u = self.up[k]
+            if u in ('LEFT', 'RIGHT', 'FULL', 'OUTER', 'CROSS'):
+                outer = True
+            if u == 'JOIN':
+                if collecting and cur:
+                    preds.append(' '.join(cur))
+                cur, collecting = [], False
+                this_outer, outer = outer, False
+                self_outer = this_outer
+                continue
+            if u == 'ON':
+                collecting = not locals().get('self_outer', False)
+                cur = []
+                continue
+            if u in ('WHERE', 'GROUP', 'ORDER', 'LIMIT', 'UNION'):
+                if collecting and cur:
+                    preds.append(' '.join(cur))
+                cur, collecting = [], False
+                if u != 'WHERE':
+                    break
+                continue
+            if collecting:
+                if u == 'AND':
+                    preds.append(' '.join(cur))
+                    cur = []
+                else:
+                    cur.append(self.toks[k])
+        if collecting and cur:
+            preds.append(' '.join(cur))
+        return [p_ for p_ in preds if p_]
+
     def where_predicates(self, scope=0):
         """top-level AND-separated predicates of the WHERE clause of a scope (token strings)."""
         lo, hi = self.group_range(scope)
